@@ -779,13 +779,19 @@ func (e *Env) call(n *ast.CallExpr) *Value {
 		return e.withView(func(v *State) *Value {
 			return boolLeaf(fmt.Sprintf("(select (select %s %s) %s)", x.heapArr(v, dk, "Bool"), m.Term, kt))
 		})
-	case "visited":
-		// visited(k): key k already visited by the current map range loop
-		k := e.eval(n.Args[0])
+	case "visited", "visitedn":
+		// visited(k) / visitedn(n, k): key k already visited by the (n-th) map range loop of the function
+		n1 := "1"
+		karg := n.Args[0]
+		if fname == "visitedn" {
+			n1 = e.eval(n.Args[0]).Term
+			karg = n.Args[1]
+		}
+		k := e.eval(karg)
 		kt, _ := x.mapKeyTerm(e.st, k)
-		g := e.view().ghost["$visited"]
+		g := e.view().ghost["$visited"+n1]
 		if g == nil {
-			e.fail("visited: no map iteration in progress")
+			e.fail("visited: no map iteration %s in progress", n1)
 		}
 		return boolLeaf(fmt.Sprintf("(select %s %s)", g.Term, kt))
 	case "holds", "rholds", "unlocked":
